@@ -14,6 +14,7 @@ DOCUMENTED = {
     "union-field-white-unselectable", "union-field-black-unfilterable",
     "read:union-field-white-unselectable", "read:union-field-black-unfilterable", "union-element-paths-rejected",
     "black:prefix-after-deeper-path-ignored", "black:prefix-after-deeper-path-ignored:read",
+    "white:prefix-after-star-path-ignored", "white:prefix-after-star-path-ignored:read", "zero-required-rejects-typedef-container-field",
 }
 
 PARTIAL = [
